@@ -294,6 +294,7 @@ def tauto_bounded(root, tier, seed):
     ms, nr, dp = (3, 60, 3) if tier == 'quick' else (4, 1000, 4)
     jobs = [{'expr': f'_c09({seed}, {ms}, {nr}, {dp})'}]
     real = rp.run_real(jobs, prelude=TAUTO_PRELUDE, root=root, timeout=5000)[0]
+    rp.check_driver(real)
     if not real['ok']:
         return {'expr': jobs[0]['expr'], 'real': real, 'failed_clause': 'bounded driver raised: ' + str(real.get('exc'))}, 0, (ms, nr, dp)
     d = rp.repr_to_data(real['repr'])
